@@ -452,6 +452,10 @@ func (w *World) WireLen() int {
 // Blocked returns the number of block fetches currently waiting for a block no reachable peer holds.
 func (w *World) Blocked() int64 { return atomic.LoadInt64(&w.blocked) }
 
+// HoldBlocked lets a fetch gate that parks a fetch declare it (delta +1 / -1): a parked fetch is rest for
+// IdleOpts.BlockedOK, like a fetch waiting for a block nobody holds.
+func (w *World) HoldBlocked(delta int64) { atomic.AddInt64(&w.blocked, delta); w.Signal() }
+
 // ---- idle detection ----
 
 // ReplicatorsIdle reports whether every open store's replicator is at rest.
